@@ -9,13 +9,13 @@ CONSTANTS
   RDelims <- NoRDelims
   MaxParts = 2
   MaxOps = 1
-  ContentSel = {1, 4, 9}
+  ContentSel = {1, 9}
   ProfileSel = {1, 2, 4}
   UseJson = FALSE
-  BoundarySel = {1, 3}
-  PreSel = {1, 2, 3}
-  EpiSel = {1, 2, 3}
-  FinSel = {TRUE, FALSE}
+  BoundarySel = {3}
+  PreSel = {1, 3}
+  EpiSel = {1, 3}
+  FinSel = {TRUE}
   LimModes = {"base", "count", "hdr", "buf"}
   EditPos <- NoPos
   EditKinds = {}
